@@ -803,12 +803,12 @@ class Processor:
                     and hasattr(parent, "merge")
                     and len(parent.merge) > 0
                 ):
-                    for (midx, merge_node) in parent.merge:
+                    for merge_pos, (_, merge_node) in enumerate(parent.merge):
                         if merge_node == compare_node:
                             for (key, val) in merge_node.items():
                                 if key in parent and parent[key] == val:
                                     del parent[key]
-                            del parent.merge[midx]
+                            del parent.merge[merge_pos]
                             break
                     else:
                         # No YAML Merge Key references that Anchor here, so
